@@ -149,6 +149,33 @@ op_tables(json_t *args)
         json_object_set_new(res, "prep", prep);
     }
 
+    /* the suggestion hooks on a grid of probe keys supplied by the translator ("sug_keys"): for each key
+     * the first non-NULL answer in registry order of sign.sug / wrap.alg / encr.sug (what find_alg() of
+     * lib/jws.c, lib/jwe.c and jose_jwe_enc_cek_io() use), and wrap.enc of every key-management algorithm */
+    {
+        json_t *keys = json_object_get(args, "sug_keys");
+        json_t *out = json_array();
+        size_t i = 0;
+        json_t *k = NULL;
+        json_array_foreach(keys, i, k) {
+            const char *sign = NULL, *walg = NULL, *encr = NULL;
+            json_t *wenc = json_object();
+            for (const jose_hook_alg_t *a = jose_hook_alg_list(); a; a = a->next) {
+                if (a->kind == JOSE_HOOK_ALG_KIND_SIGN && !sign)
+                    sign = a->sign.sug(a, NULL, k);
+                if (a->kind == JOSE_HOOK_ALG_KIND_WRAP && !walg)
+                    walg = a->wrap.alg(a, NULL, k);
+                if (a->kind == JOSE_HOOK_ALG_KIND_ENCR && !encr && json_is_object(k))
+                    encr = a->encr.sug(a, NULL, k);
+                if (a->kind == JOSE_HOOK_ALG_KIND_WRAP && json_is_object(k))
+                    json_object_set_new(wenc, a->name, optstr(a->wrap.enc(a, NULL, k)));
+            }
+            json_array_append_new(out, json_pack("{s:O,s:o,s:o,s:o,s:o}", "key", k, "sign", optstr(sign),
+                                                 "walg", optstr(walg), "encr", optstr(encr), "wenc", wenc));
+        }
+        json_object_set_new(res, "sug", out);
+    }
+
     json_object_set_new(res, "algs", algs);
     json_object_set_new(res, "ktys", ktys);
     json_object_set_new(res, "opers", opers);
